@@ -270,21 +270,19 @@ func (ctx *RenderContext) GetVariable(name string) (interface{}, error) {
 		}
 	}
 
-	// Check local context first
-	if value, ok := ctx.context[name]; ok {
-		return value, nil
-	}
-
-	// Check globals
-	if ctx.env != nil {
-		if value, ok := ctx.env.globals[name]; ok {
+	// Check this context and the contexts it was derived from (an included template reads
+	// the variables of the template that includes it)
+	for c := ctx; c != nil; c = c.parent {
+		if value, ok := c.context[name]; ok {
 			return value, nil
 		}
 	}
 
-	// Check parent context
-	if ctx.parent != nil {
-		return ctx.parent.GetVariable(name)
+	// Globals are defaults: a variable of the same name anywhere in the chain hides them
+	if ctx.env != nil {
+		if value, ok := ctx.env.globals[name]; ok {
+			return value, nil
+		}
 	}
 
 	// Return nil with no error for undefined variables
